@@ -808,3 +808,141 @@ EXTRA["C18"].append((validate_kind_reads, "C18.13"))
 EXTRA["C15"] = [(probability_error_terms, "C15.15")]
 EXTRA["C02"] = [(block_context_restored, "C02.10")]
 EXTRA["C16"].append((eof_position, "C16.23"))
+
+
+# ---------------------------------------------------------------- third batch
+
+def splice_same_kind(ctx, rep, rule):
+    ix = ctx.ix
+    rep.rule(rule, "a block returned for a statement is spliced into its parent only when both have the same kind: the test compares `.parallel` with `.parallel`", floor=2)
+    n = 0
+    for q in ("jaqalpaq.core.algorithm.expand_macros.MacroExpander", "jaqalpaq.core.algorithm.expand_macros.GateReplacer"):
+        m = _method(ix, q, "visit_BlockStatement")
+        for c in ast.walk(m.node):
+            if isinstance(c, ast.Compare) and len(c.ops) == 1 and isinstance(c.left, ast.Attribute) and isinstance(c.comparators[0], ast.Attribute) and {c.left.attr, c.comparators[0].attr} & {"parallel", "subcircuit"}:
+                n += 1
+                cons = construct_of(m, "splice-kind")
+                if c.left.attr == c.comparators[0].attr == "parallel" and isinstance(c.ops[0], ast.Eq):
+                    rep.ok(rule, cons, f"`{ast.unparse(c)}`", f"{m.path}:{c.lineno}")
+                else:
+                    rep.violation(rule, cons, f"`{ast.unparse(c)}` compares different properties of the two blocks: a parallel block returned for a macro call in a sequential parent is dissolved into it (its gates run one after the other) or a sequential one is not", f"{m.path}:{c.lineno}")
+    if n < 2:
+        raise AnalysisError(f"{rule}: only {n} splice tests found")
+
+
+def count_kind_polarity(ctx, rep, rule):
+    ix = ctx.ix
+    m = _method(ix, "jaqalpaq.core.algorithm.expand_macros.GateReplacer", "substitute_count")
+    rep.rule(rule, "a substituted count that is still symbolic is refused when its kind is NOT integer-like", floor=1)
+    cons = construct_of(m, "kind-test")
+    hit = False
+    for r in ast.walk(m.node):
+        if isinstance(r, ast.Raise):
+            for t, taken in _enclosing_ifs(m.node, r):
+                for c in ast.walk(t):
+                    if isinstance(c, ast.Compare) and ".kind" in ast.unparse(c.left) and isinstance(c.ops[0], (ast.In, ast.NotIn)):
+                        hit = True
+                        refuse_outside = isinstance(c.ops[0], ast.NotIn) == taken
+                        if refuse_outside:
+                            rep.ok(rule, cons, f"`{ast.unparse(c)[:70]}` raises", f"{m.path}:{c.lineno}")
+                        else:
+                            rep.violation(rule, cons, f"`{ast.unparse(c)[:70]}` raises for integer-like parameters: `macro f n {{ loop n {{..}} }}` inside another macro that passes its own parameter on is refused, and a float or qubit parameter passes", f"{m.path}:{c.lineno}")
+    if not hit:
+        rep.undecided(rule, cons, "no kind test guards a raise", m.loc())
+
+
+def check_argument_walk(ctx, rep, rule):
+    ix = ctx.ix
+    f = _func(ix, "jaqalpaq.core.algorithm.expand_macros.check_argument")
+    rep.rule(rule, "check_argument follows the alias chain while there IS a link, and returns early for a parameter as source as well as for a parameter as index", floor=1)
+    cons = construct_of(f, "chain-walk")
+    ws = [w for w in ast.walk(f.node) if isinstance(w, ast.While)]
+    if not ws:
+        rep.undecided(rule, cons, "no loop", f.loc())
+        return
+    w = ws[0]
+    sense = _none_test_name(w.test, _names(w.test).pop() if len(_names(w.test)) == 1 else "")
+    ret = [st for st in ast.walk(w) if isinstance(st, ast.If) and any(isinstance(s, ast.Return) for s in st.body)]
+    two = ret and isinstance(ret[0].test, ast.BoolOp) and isinstance(ret[0].test.op, ast.Or) and "alias_index" in ast.unparse(ret[0].test) and any(isinstance(v, ast.Call) and isinstance(v.args[0], ast.Name) for v in ret[0].test.values)
+    if sense is False:
+        rep.violation(rule, cons, f"`while {ast.unparse(w.test)}`: the chain is never walked, so an argument that depends on a parameter of the enclosing macro is resolved at once (JaqalError: unbound)", f"{f.path}:{w.lineno}")
+    elif not two:
+        rep.violation(rule, cons, f"`{ast.unparse(ret[0].test)[:80] if ret else 'no early return'}`: only one of (source is a parameter, index is a parameter) is recognised as `not known yet`", f"{f.path}:{(ret[0] if ret else w).lineno}")
+    elif sense is True:
+        rep.ok(rule, cons, "walks while obj is not None; early return for parameter source or index", f.loc())
+    else:
+        rep.undecided(rule, cons, f"`while {ast.unparse(w.test)}`", f"{f.path}:{w.lineno}")
+
+
+def relink_condition(ctx, rep, rule):
+    ix = ctx.ix
+    SE = "jaqalpaq.core.algorithm.expand_subcircuits.SubcircuitExpander"
+    gh = ix.classes[SE].methods.get("visit_GateStatement") if SE in ix.classes else None
+    rep.rule(rule, "the subcircuit expander links a call to a new definition when there IS one of that name AND the statement is a macro call", floor=1)
+    if gh is None:
+        rep.undecided(rule, f"core.algorithm.expand_subcircuits:SubcircuitExpander:relink-condition", "no gate handler (see C09.8)")
+        return
+    cons = construct_of(gh, "relink-condition")
+    ifs = [st for st in iter_stmts(gh.body) if isinstance(st, ast.If) and any(isinstance(s, ast.Return) for s in st.body)]
+    if not ifs:
+        rep.undecided(rule, cons, "no conditional relink", gh.loc())
+        return
+    t = ifs[0].test
+    has = lambda e: isinstance(e, ast.Compare) and isinstance(e.ops[0], ast.IsNot) and isinstance(e.comparators[0], ast.Constant) and e.comparators[0].value is None
+    is_macro = lambda e: isinstance(e, ast.Call) and isinstance(e.func, ast.Name) and e.func.id == "isinstance" and "Macro" in ast.unparse(e.args[1])
+    if _positive_conjunct(t, has) and _positive_conjunct(t, is_macro):
+        rep.ok(rule, cons, f"`{ast.unparse(t)}`", f"{gh.path}:{ifs[0].lineno}")
+    elif isinstance(t, (ast.BoolOp, ast.Call, ast.Compare, ast.UnaryOp)):
+        rep.violation(rule, cons, f"`{ast.unparse(t)}`: a call of a macro without a new definition calls None (TypeError), or a native gate that shares its name with a macro is turned into a macro call", f"{gh.path}:{ifs[0].lineno}")
+    else:
+        rep.undecided(rule, cons, f"`{ast.unparse(t)}`", f"{gh.path}:{ifs[0].lineno}")
+
+
+def count_integrality(ctx, rep, rule):
+    ix = ctx.ix
+    m = _method(ix, "jaqalpaq.core.circuitbuilder.Builder", "build_count")
+    rep.rule(rule, "build_count refuses a let-valued count whose value is not integral OR stays a float, and any other count that is neither an integer nor a parameter", floor=2)
+    cons = construct_of(m, "constant-count")
+    tests = [st for st in ast.walk(m.node) if isinstance(st, ast.If) and any(isinstance(s, ast.Raise) for s in st.body) and "value" in ast.unparse(st.test)]
+    if not tests:
+        rep.violation(rule, cons, "the value of a let used as a count is not tested for integrality", m.loc())
+    for st in tests:
+        t = st.test
+        if isinstance(t, ast.BoolOp) and isinstance(t.op, ast.Or) and any(isinstance(v, ast.Compare) and isinstance(v.ops[0], ast.NotEq) for v in t.values) and any("isinstance" in ast.unparse(v) and "float" in ast.unparse(v) for v in t.values):
+            rep.ok(rule, cons, f"`{ast.unparse(t)[:80]}` raises", f"{m.path}:{st.lineno}")
+        elif isinstance(t, ast.BoolOp) and isinstance(t.op, ast.And):
+            rep.violation(rule, cons, f"`{ast.unparse(t)[:90]}`: both conditions can never hold together, so `let n 2.5; loop n {{..}}` is accepted", f"{m.path}:{st.lineno}")
+        elif isinstance(t, ast.Compare):
+            rep.violation(rule, cons, f"`{ast.unparse(t)[:90]}` lets a non-finite float count through (as_integer leaves inf and nan as they are, and they equal themselves or never do)", f"{m.path}:{st.lineno}")
+        else:
+            rep.undecided(rule, cons, f"`{ast.unparse(t)[:80]}`", f"{m.path}:{st.lineno}")
+    cons = construct_of(m, "other-count")
+    typ = [st for st in ast.walk(m.node) if isinstance(st, ast.If) and any(isinstance(s, ast.Raise) for s in st.body) and "Parameter" in ast.unparse(st.test) and "isinstance" in ast.unparse(st.test)]
+    if typ:
+        rep.ok(rule, cons, f"`{ast.unparse(typ[0].test)[:70]}` raises", f"{m.path}:{typ[0].lineno}")
+    else:
+        rep.violation(rule, cons, "a count that is neither an integer nor a parameter (a float, a string, a qubit) is accepted: `loop 1.5 { .. }` builds and fails in range()", m.loc())
+
+
+def nan_clause(ctx, rep, rule):
+    ix = ctx.ix
+    eq = _method(ix, "jaqalpaq.core.gate.GateStatement", "__eq__")
+    rep.rule(rule, "the NaN special case of gate-argument equality applies to floats that are NaN (a conjunction on both sides)", floor=1)
+    cons = construct_of(eq, "nan-clause")
+    n = 0
+    for b in ast.walk(eq.node):
+        if isinstance(b, ast.BoolOp) and "isnan" in ast.unparse(b) and "isinstance" in ast.unparse(b):
+            n += 1
+            if isinstance(b.op, ast.And):
+                rep.ok(rule, cons, f"`{ast.unparse(b)}`", f"{eq.path}:{b.lineno}")
+            else:
+                rep.violation(rule, cons, f"`{ast.unparse(b)}`: math.isnan is applied to arguments that are not floats (a qubit, a let constant): comparing `Rz q[0] nan` with `Rz q[0] t` raises TypeError instead of answering False, and any float equals NaN", f"{eq.path}:{b.lineno}")
+    if n == 0:
+        rep.undecided(rule, cons, "no NaN clause", eq.loc())
+
+
+EXTRA["C04"] = [(splice_same_kind, "C04.12"), (count_kind_polarity, "C04.13")]
+EXTRA["C14"].append((check_argument_walk, "C14.11"))
+EXTRA["C14"].append((count_integrality, "C14.12"))
+EXTRA["C09"] = [(relink_condition, "C09.13")]
+EXTRA["C20"].append((nan_clause, "C20.12"))
